@@ -332,7 +332,7 @@ def run(ctx, which):
             add(t, cc.gen_value(rng, world, t), "small-types")
     ctx.extra["small_type_depth"] = depth
     # 3. random deep types
-    n = ctx.scale(2500, 120000)
+    n = ctx.scale(15000, 120000)
     maxd = ctx.scale(4, 6)
     for _ in range(n):
         t = cc.gen_type(rng, rng.randrange(1, maxd + 1))
